@@ -215,7 +215,7 @@ impl Registry {
                     });
                 for (url, directives) in compose_directives {
                     writeln!(sdl, "extend schema @link(").ok();
-                    writeln!(sdl, "{}url: \"{}\"", tab(&options), url).ok();
+                    writeln!(sdl, "{}url: \"{}\"", tab(&options), escape_string(url)).ok();
                     writeln!(sdl, "{}import: [{}]", tab(&options), directives.join(",")).ok();
                     writeln!(sdl, ")").ok();
                     for name in directives {
